@@ -327,7 +327,7 @@ Fixpoint read_loop (fixed : bool) (size : Z) (ev : list event) (g : net) (r avai
     end
   else (g, r, avail, acc).
 
-Inductive aerr := ENotAllowed | EValueError.
+Inductive aerr := ENotAllowed | EValueError | EInvalidHeader.
 
 Inductive ares :=
 | ABytes (b : bytes) | AStop | AErr (e : aerr) | ANone | ABool (b : bool) | AInt (z : Z).
@@ -443,3 +443,95 @@ Fixpoint arun (fixed : bool) (ops : list aop) (st : ast) : list (ares * ast) :=
   end.
 
 Definition ares_bytes (r : ares) : bytes := match r with ABytes b => b | _ => [] end.
+
+(* ------------------------------------------------------------------ the request objects *)
+
+(* The Content-Length header as the request object reads it (falcon/request.py and
+   falcon/asgi/request.py: content_length): absent, present but empty, not an int(), or an
+   integer (a negative one is rejected like a non-integer). *)
+Inductive clen := CAbsent | CEmpty | CInvalid | CValue (n : Z).
+
+(* Request.content_length: None = raises HTTPInvalidHeader; Some None = returns None *)
+Definition content_length (c : clen) : option (option Z) :=
+  match c with
+  | CAbsent | CEmpty => Some None
+  | CInvalid => None
+  | CValue n => if n <? 0 then None else Some (Some n)
+  end.
+
+(* falcon.Request (WSGI).  req.stream IS env['wsgi.input'] (unbounded, shares the server's
+   cursor); req.bounded_stream is created lazily, at most once, by _get_wrapped_wsgi_input:
+   BoundedStream(env['wsgi.input'], content_length or 0), an invalid header counting as 0.
+   [q_rem] = None until the wrapper exists, then its remaining budget (its only own state:
+   the source is shared); [q_made] counts constructions. *)
+Definition wsgi_budget (c : clen) : Z :=
+  match content_length c with Some (Some n) => n | _ => 0 end.
+
+Record wreq := { q_src : src; q_cl : clen; q_rem : option Z; q_made : Z }.
+
+Inductive qop :=
+| QBounded (op : wop)                 (* req.bounded_stream.<op> *)
+| QRawRead (n : option Z)             (* req.stream.read(n) *)
+| QRawReadline (n : option Z).        (* req.stream.readline(n) *)
+
+Definition q_wst (q : wreq) : wst :=
+  {| w_rem := match q_rem q with Some r => r | None => wsgi_budget (q_cl q) end;
+     w_src := q_src q |}.
+
+Definition raw_size (n : option Z) : Z := match n with Some k => k | None => -1 end.
+
+Definition qstep (op : qop) (q : wreq) : wres * wreq :=
+  match op with
+  | QBounded o =>
+    let '(r, st') := wstep true o (q_wst q) in
+    (r, {| q_src := w_src st'; q_cl := q_cl q; q_rem := Some (w_rem st');
+           q_made := match q_rem q with Some _ => q_made q | None => q_made q + 1 end |})
+  | QRawRead n =>
+    let '(d, s') := src_read (raw_size n) (q_src q) in
+    (RBytes d, {| q_src := s'; q_cl := q_cl q; q_rem := q_rem q; q_made := q_made q |})
+  | QRawReadline n =>
+    let '(d, s') := src_readline (raw_size n) (q_src q) in
+    (RBytes d, {| q_src := s'; q_cl := q_cl q; q_rem := q_rem q; q_made := q_made q |})
+  end.
+
+Fixpoint qrun (ops : list qop) (q : wreq) : list (wres * wreq) :=
+  match ops with
+  | [] => []
+  | op :: tl => let '(r, q1) := qstep op q in (r, q1) :: qrun tl q1
+  end.
+
+Definition q_init (c : clen) (s : src) : wreq :=
+  {| q_src := s; q_cl := c; q_rem := None; q_made := 0 |}.
+
+(* falcon.asgi.Request.  __init__ keeps receive and first_event; req.stream creates, at most
+   once, BoundedStream(receive, first_event=self._first_event,
+   content_length=self.content_length) -- so an invalid Content-Length surfaces there as
+   HTTPInvalidHeader -- and req.bounded_stream is an alias of req.stream. *)
+Record areq := { rq_first : option (option bytes * bool); rq_cl : clen;
+                 rq_events : list event; rq_stream : option ast; rq_made : Z }.
+
+(* accessor used for the operation: true = req.stream, false = req.bounded_stream *)
+Definition areq_step (via_stream : bool) (op : aop) (rq : areq) : ares * areq :=
+  match rq_stream rq with
+  | Some st =>
+    let '(r, st') := astep true op st in
+    (r, {| rq_first := rq_first rq; rq_cl := rq_cl rq; rq_events := rq_events rq;
+           rq_stream := Some st'; rq_made := rq_made rq |})
+  | None =>
+    match content_length (rq_cl rq) with
+    | None => (AErr EInvalidHeader, rq)
+    | Some c =>
+      let '(r, st') := astep true op (a_init true (rq_first rq) c (rq_events rq)) in
+      (r, {| rq_first := rq_first rq; rq_cl := rq_cl rq; rq_events := rq_events rq;
+             rq_stream := Some st'; rq_made := rq_made rq + 1 |})
+    end
+  end.
+
+Fixpoint areq_run (ops : list (bool * aop)) (rq : areq) : list (ares * areq) :=
+  match ops with
+  | [] => []
+  | (via, op) :: tl => let '(r, rq1) := areq_step via op rq in (r, rq1) :: areq_run tl rq1
+  end.
+
+Definition areq_init (first : option (option bytes * bool)) (c : clen) (events : list event) : areq :=
+  {| rq_first := first; rq_cl := c; rq_events := events; rq_stream := None; rq_made := 0 |}.
